@@ -113,7 +113,31 @@ pub fn global_mono() -> i64 {
 }
 
 fn is_real(clk: libc::clockid_t) -> bool {
-    clk == libc::CLOCK_REALTIME || clk == libc::CLOCK_REALTIME_COARSE
+    clk == libc::CLOCK_REALTIME || clk == libc::CLOCK_REALTIME_COARSE || clk == libc::CLOCK_TAI
+}
+
+/// CLOCK_TAI is the realtime clock plus the kernel's TAI-UTC offset: 37 s since 2017 wherever anything
+/// (chronyd with a leap-second table, ntpd, adjtimex) has set it. Time stamps that come from outside
+/// (chronyd's reference time) are UTC, so code that mixes the two is off by this much.
+pub const TAI_OFFSET_NS: i128 = 37 * NS;
+fn scale_offset(clk: libc::clockid_t) -> i128 {
+    if clk == libc::CLOCK_TAI {
+        TAI_OFFSET_NS
+    } else {
+        0
+    }
+}
+
+/// CLOCK_BOOTTIME is the monotonic clock plus the time the host has spent suspended (a paused VM, a
+/// hibernated instance): one hour here. The daemon stamps its records with the monotonic clock, so a
+/// client that measures their age with the boot-time clock is off by this much.
+pub const SUSPENDED_NS: i128 = 3600 * NS;
+fn mono_offset(clk: libc::clockid_t) -> i128 {
+    if clk == libc::CLOCK_BOOTTIME || clk == libc::CLOCK_BOOTTIME_ALARM {
+        SUSPENDED_NS
+    } else {
+        0
+    }
 }
 
 fn put(ts: *mut libc::timespec, ns: i128) {
@@ -163,7 +187,7 @@ pub unsafe extern "C" fn clock_gettime(clk: libc::clockid_t, ts: *mut libc::time
                 }
             }
         }
-        let v = if is_real(clk) { c.real_ns } else { c.mono_ns };
+        let v = if is_real(clk) { c.real_ns + scale_offset(clk) } else { c.mono_ns + mono_offset(clk) };
         put(ts, v);
         if LOG_ON.with(|l| l.get()) {
             LOG.with(|l| {
@@ -180,8 +204,8 @@ pub unsafe extern "C" fn clock_gettime(clk: libc::clockid_t, ts: *mut libc::time
         return 0;
     }
     if G_ARMED.load(Ordering::Relaxed) {
-        let v = if is_real(clk) { G_REAL.load(Ordering::SeqCst) } else { G_MONO.load(Ordering::SeqCst) };
-        put(ts, v as i128);
+        let v = if is_real(clk) { G_REAL.load(Ordering::SeqCst) as i128 + scale_offset(clk) } else { G_MONO.load(Ordering::SeqCst) as i128 + mono_offset(clk) };
+        put(ts, v);
         return 0;
     }
     libc::syscall(libc::SYS_clock_gettime, clk, ts) as libc::c_int
